@@ -233,3 +233,12 @@ _add("C12", tech="concurrent form: at quiescence every table node's expiration a
      rule="Concurrent engines: one case = (configuration with expiry or refresh, per-task programs) x one schedule; non-trivial: more than 4 context switches and at least one final deadline judged.")
 for _p in META:
     META[_p]["technique"] += "; schedules drawn from random walk / PCT / bursts / windows / op-relative site-targeted preemption"
+_add("C17", tech="concurrent cache-level engine: readers, writers, InvalidateAll and CleanUp race on a cache with one or two read-buffer stripes; at quiescence nothing may be left in the read buffer once maintenance ran (lossy.read-buffer-not-drained), results must be linearizable and the audit clean",
+     level="A concurrent cache-level engine checks delivery at quiescence and that results do not depend on the read buffer under contention.",
+     rule="Concurrent cache-level engine: one case = (bounded configuration, per-task programs) x one schedule; non-trivial: more than 4 context switches on a bounded cache.")
+_add("C08", tech="rule load.joined-finished-load: a Get must not return the outcome of a failing loader call after another caller has already returned with it")
+_add("C13", tech="a lost Expiration notification (atomic event without its OnDeletion at quiescence) is C13's as well")
+_add("C16", tech="cache-level engine with write buffers of 4-8 events and operations that hold the eviction lock (writers exhaust their retries and help out); forgotten-event audit problems are C16's; stalled-task fault reaches bounded spin-waits")
+_add("C18", tech="second decision-level rule: a main-region victim evicted without comparison while an arrival of this run of the eviction loop was never considered")
+_add("C04", tech="resize mode incl. a 128-bucket table (parallel copy) just below its grow threshold with a maximum just above it")
+_add("C05", tech="resize mode incl. a 128-bucket table (parallel copy)")
